@@ -450,7 +450,12 @@ func genEvalMain(args []string) {
 			}
 		}
 	}
-	extreme := []string{`[{"a":1},{"a":1e400},{"a":"x"}]`, `{"a":-0,"b":1e-400,"c":123456789012345678901234567890}`, `[1e308,-1e308,0.1,1e21]`, `{"a":[9007199254740993,0.30000000000000004]}`}
+	// numbers at and beyond the limits of float64 / int64, and unusual spellings (json.Number keeps them)
+	extreme := []string{`[{"a":1},{"a":1e400},{"a":"x"}]`, `[{"a":-1e400},{"a":2}]`, `{"a":-0,"b":1e-400,"c":123456789012345678901234567890}`,
+		`[1e308,-1e308,0.1,1e21]`, `{"a":[9007199254740993,0.30000000000000004]}`, `[{"a":1E2},{"a":0.1e1},{"a":1.0},{"a":100}]`,
+		`[1e400,1,"1e400"]`, `[{"a":9223372036854775807},{"a":-9223372036854775808},{"a":9223372036854775808}]`}
+	extremePaths := []string{`$[?(@.a > 0)]`, `$[?(@.a < 1)]`, `$[?(@.a >= $[0].a)]`, `$[?(@ > 0)]`, `$[?(@ <= 1)]`, `$..[?(@.a <= 2)]`, `$[?(@.a == 1)]`,
+		`$[?(@.a != $[1].a)]`, `$[?(@.a == $[0].a)]`, `$..a`, `$[*].a`, `$[?(0 < @.a)]`, `$[?(@.a == 100)]`, `$[?(@ == 1e400)]`, `$.a[?(@ > 1)]`, `$[?(@.a > $[1].a)]`}
 	for i := 0; i < *n; i++ {
 		var d interface{}
 		switch g.rnd.Intn(4) {
@@ -464,9 +469,13 @@ func genEvalMain(args []string) {
 		db, _ := json.Marshal(d)
 		ds := string(db)
 		src := "random"
-		if i%50 == 49 {
+		p := g.path()
+		if i%25 == 24 {
 			ds, src = extreme[g.rnd.Intn(len(extreme))], "extreme-numbers"
+			if g.rnd.Intn(4) > 0 {
+				p = extremePaths[g.rnd.Intn(len(extremePaths))]
+			}
 		}
-		emit(g.path(), ds, src)
+		emit(p, ds, src)
 	}
 }
